@@ -188,6 +188,55 @@ def slidingCount (size slide : Nat) : Machine SlidingCount Op (List Ev) :=
 def slidingCountOld (size slide : Nat) : Machine SlidingCount Op (List Ev) :=
   { init := { evs := [], since := 0 }, step := SlidingCount.step size slide }
 
+
+/-! ## specification-level definitions (used by the theorems of Props/C12, C13 and by the judges of the driver) -/
+
+/-- operations paired with what they emitted -/
+def Machine.trace (m : Machine σ ι β) : σ → List ι → List (ι × List β)
+  | _, [] => []
+  | s, o :: os => (o, (m.step s o).2) :: m.trace (m.step s o).1 os
+
+/-- adjacent pairs of a list -/
+def adjacent : List α → List (α × α)
+  | a :: b :: l => (a, b) :: adjacent (b :: l)
+  | _ => []
+
+/-- the operation times are non-decreasing and not before `now` -/
+def InOrderFrom (now : Int) (ops : List Op) : Prop := (now :: ops.filterMap Op.time).Pairwise (· ≤ ·)
+/-- in-order timeline: event and watermark times merged monotonically (ties allowed) -/
+def InOrder (ops : List Op) : Prop := (ops.filterMap Op.time).Pairwise (· ≤ ·)
+
+/-- what the property says about one tumbling window for in-order input:
+arrival order is timestamp order and every event is earlier than the first event plus the duration -/
+def TumblingOk (d : Int) (w : List Ev) : Prop :=
+  w.Pairwise (fun a b => a.ts ≤ b.ts) ∧ ∀ f, w.head? = some f → ∀ e ∈ w, e.ts < f.ts + d
+
+/-- what the property says about one session window for in-order input: adjacent gaps within the session gap -/
+def SessionOk (g : Int) (w : List Ev) : Prop := ∀ p ∈ adjacent w, p.1.ts ≤ p.2.ts ∧ p.2.ts - p.1.ts ≤ g
+
+/-- time of the latest operation that emitted something, read off a trace (`l` = before the trace) -/
+def lastEmission : Option Int → List (Op × List (List Ev)) → Option Int
+  | l, [] => l
+  | l, (o, out) :: tr => lastEmission (if out.isEmpty then l else o.time) tr
+
+/-- events with timestamp within `size` of `t` -/
+def inRange (size t : Int) (l : List Ev) : List Ev := l.filter (fun e => decide (t - size ≤ e.ts))
+
+/-- C13 oracle, time-sliding: what an operation must emit given the history `seen` (arrival order) and the
+time `last` of the previous emission: the events in range of the trigger, iff first or `slide` elapsed -/
+def slidingExpected (size slide : Int) (last : Option Int) (seen : List Ev) : Op → List (List Ev)
+  | .add e => if slideDue slide last e.ts then [inRange size e.ts (seen ++ [e])] else []
+  | .watermark t => if slideDue slide last t ∧ inRange size t seen ≠ [] then [inRange size t seen] else []
+  | _ => []
+
+/-- C13 oracle, count-sliding: the `i`-th event (1-based) emits iff `i = size + k·slide`; the emission is the
+last `size` events -/
+def slidingCountExpected (size slide : Nat) (seen : List Ev) : Op → List (List Ev)
+  | .add e =>
+    let i := seen.length + 1
+    if size ≤ i ∧ (i - size) % slide = 0 then [(seen ++ [e]).drop (i - size)] else []
+  | _ => []
+
 /-! ## partition keys (`Value::to_partition_key`, `value.rs`) -/
 
 /-- decimal digits of a natural number, most significant first (`u64::to_string`) -/
